@@ -325,3 +325,69 @@ pub fn kern128<T: I128BigOps + I128NormalizeOps>(r: &Req) -> String {
     }
     s
 }
+
+/// NTT120 integer kernels through the public primitive traits.
+/// `id q120 be=<nref|navx> op=<consts|c_from_b|from_znx64|mul_bbc> [x=..] [y=..] [mask=..]`
+pub fn q120<T>(r: &Req) -> String
+where
+    T: poulpy_cpu_ref::reference::ntt120::NttCFromB
+        + poulpy_cpu_ref::reference::ntt120::NttFromZnx64
+        + poulpy_cpu_ref::reference::ntt120::NttMulBbc,
+{
+    use poulpy_cpu_ref::reference::ntt120::{
+        mat_vec::BbcMeta,
+        primes::{PrimeSet, Primes30},
+    };
+    let op = r.get("op").unwrap_or("");
+    match op {
+        "consts" => {
+            let m = BbcMeta::<Primes30>::new();
+            format!(
+                "q={} crt={} bbc_h={} s2l={} s2h={}",
+                show(&Primes30::Q),
+                show(&Primes30::CRT_CST),
+                m.h,
+                show(&m.s2l_pow_red),
+                show(&m.s2h_pow_red)
+            )
+        }
+        "c_from_b" => {
+            let x: Vec<u64> = r.list("x");
+            let nn = x.len() / 4;
+            let xg = G::new(&x, 0xA5A5_0000_1111_2222u64);
+            let mut res = G::new(&vec![0u32; 8 * nn], 0xDEAD_BEEFu32);
+            T::ntt_c_from_b(nn, res.m(), xg.s());
+            let mut s = show(res.s());
+            if res.stray().is_some() {
+                s.push_str("|stray");
+            }
+            s
+        }
+        "from_znx64" => {
+            let x: Vec<i64> = r.list("x");
+            let nn = x.len();
+            let mut res = G::new(&vec![0u64; 4 * nn], 0xA5A5_0000_1111_2222u64);
+            match r.get("mask") {
+                Some(m) => T::ntt_from_znx64_masked(res.m(), &x, m.parse::<i64>().unwrap_or(-1)),
+                None => T::ntt_from_znx64(res.m(), &x),
+            }
+            let mut s = show(res.s());
+            if res.stray().is_some() {
+                s.push_str("|stray");
+            }
+            s
+        }
+        "mul_bbc" => {
+            let x: Vec<u64> = r.list("x");
+            let y: Vec<u64> = r.list("y");
+            let ell = x.len() / 4;
+            let xv: Vec<u32> = x.iter().flat_map(|v| [*v as u32, (*v >> 32) as u32]).collect();
+            let yv: Vec<u32> = y.iter().flat_map(|v| [*v as u32, (*v >> 32) as u32]).collect();
+            let m = BbcMeta::<Primes30>::new();
+            let mut res = vec![0u64; 4];
+            T::ntt_mul_bbc(&m, ell, &mut res, &xv, &yv);
+            show(&res)
+        }
+        _ => "bad-op".to_string(),
+    }
+}
